@@ -6,6 +6,8 @@ import os
 import numpy as np
 from hypothesis import strategies as st
 
+from mv import hperm
+
 from mv import gen_atoms, gen_geom, geom, mf, model_atoms as M, ref_match, repl
 from mv.quiet import silenced
 from mv.runner import EnumPart, HypPart, Violation
@@ -38,14 +40,14 @@ def terms_over(draw, idx_pool, size, nmax, ntypes):
     out, types, seen = [], [], set()
     if len(idx_pool) < size:
         return out, types
-    for _ in range(draw(st.integers(1, nmax))):
-        t = [idx_pool[i] for i in list(draw(st.permutations(range(len(idx_pool)))))[:size]]
+    for _ in range(draw(hperm.integers(1, nmax))):
+        t = [idx_pool[i] for i in list(draw(hperm.permutations(range(len(idx_pool)))))[:size]]
         key = min(tuple(t), tuple(t[::-1]))
         if key in seen:
             continue
         seen.add(key)
         out.append(t)
-        types.append(draw(st.integers(0, ntypes - 1)))
+        types.append(draw(hperm.integers(0, ntypes - 1)))
     return out, types
 
 
@@ -83,7 +85,7 @@ def case(draw, chain=False):
         else:
             tel.append(e)
             same = [l for l, se in zip(s["type_labels"], s["type_elements"]) if se == e]
-            if same and draw(st.integers(0, 3)) == 0:
+            if same and draw(hperm.integers(0, 3)) == 0:
                 # structure and pattern use the same label for differently parameterised types (both call it 'C_3')
                 tl.append(same[0])
             else:
@@ -110,7 +112,7 @@ def case(draw, chain=False):
         if mode == "r-only" and r_table:
             s_table = False
         if s_terms:
-            nt = draw(st.integers(1, 3))
+            nt = draw(hperm.integers(1, 3))
             terms, types = [], []
             # inside copies (same relative atoms in every copy and not), outside, across
             for pool in ([c["start"] + i for i in range(n)] for c in copies):
@@ -127,11 +129,11 @@ def case(draw, chain=False):
                     types.append(b)
             s[k + "s"], s[k + "_types"] = terms, types
             if s_table and terms:
-                s[k + "_coeffs"] = ["%s_s%d %d.5 # S%d" % (k, q, q, q) for q in range(nt + draw(st.integers(0, 1)))]
+                s[k + "_coeffs"] = ["%s_s%d %d.5 # S%d" % (k, q, q, q) for q in range(nt + draw(hperm.integers(0, 1)))]
         elif s_table:
-            s[k + "_coeffs"] = ["%s_s%d %d.5" % (k, q, q) for q in range(draw(st.integers(1, 2)))]
+            s[k + "_coeffs"] = ["%s_s%d %d.5" % (k, q, q) for q in range(draw(hperm.integers(1, 2)))]
         if r_terms:
-            nt = draw(st.integers(1, 3))
+            nt = draw(hperm.integers(1, 3))
             t, ty = draw(terms_over(list(range(nr)), size, 4, nt))
             r[k + "s"], r[k + "_types"] = t, ty
             if r_table and t:
@@ -143,7 +145,7 @@ def case(draw, chain=False):
             if s[k + "_types"] and r[k + "s"]:
                 for t in r[k + "s"]:
                     if all(j in sh for j in t) and draw(st.booleans()):
-                        c = copies[draw(st.integers(0, len(copies) - 1))]
+                        c = copies[draw(hperm.integers(0, len(copies) - 1))]
                         img = [c["start"] + sh[j] for j in t]
                         how = draw(st.sampled_from(["fwd", "rev", "rot"]))
                         img = img if how == "fwd" else img[::-1] if how == "rev" else img[1:] + img[:1]
@@ -155,11 +157,11 @@ def case(draw, chain=False):
            "pair_mode": pair_mode, "meta": base["meta"]}
     if chain:
         steps = []
-        for stp in range(draw(st.integers(1, 2))):
+        for stp in range(draw(hperm.integers(1, 2))):
             # next step: search for the previous replacement pattern (geometry + elements), replace it by a re-typed copy
             # with all atoms shared, possibly one more atom, and its own terms/tables compatible with the first pattern
-            steps.append({"new_atom": draw(st.booleans()), "retable": draw(st.integers(0, 10 ** 6)),
-                          "seeds": [draw(st.integers(0, 2 ** 31 - 1)), draw(st.integers(0, 2 ** 31 - 1))]})
+            steps.append({"new_atom": draw(st.booleans()), "retable": draw(hperm.integers(0, 10 ** 6)),
+                          "seeds": [draw(hperm.integers(0, 2 ** 31 - 1)), draw(hperm.integers(0, 2 ** 31 - 1))]})
         out["chain"] = steps
     return out
 
